@@ -15,6 +15,7 @@ pub enum Kind {
     Ns,
     Syn,
     Stun,
+    StunChange,
 }
 
 /// Build a reply-eliciting frame of `kind` from client `cip` to `sip` with destination MAC
@@ -43,14 +44,15 @@ pub fn elicit(kind: Kind, dmac: &Mac, cip: &Ip, sip: &Ip) -> Vec<u8> {
         }
         Kind::Syn => f.tcp(77, 0, F_SYN, b""),
         Kind::Stun => f.udp(&stun_magic(&[], &ID12)),
+        Kind::StunChange => f.udp(&stun_classic(&stun_attr(3, &[0, 0, 0, 6]), &ID16)),
     }
 }
 
 fn kinds_for(v6: bool) -> Vec<Kind> {
     if v6 {
-        vec![Kind::Echo, Kind::Ns, Kind::Syn, Kind::Stun]
+        vec![Kind::Echo, Kind::Ns, Kind::Syn, Kind::Stun, Kind::StunChange]
     } else {
-        vec![Kind::Arp, Kind::Echo, Kind::Syn, Kind::Stun]
+        vec![Kind::Arp, Kind::Echo, Kind::Syn, Kind::Stun, Kind::StunChange]
     }
 }
 
